@@ -26,10 +26,9 @@ def const_offset(n, base='input'):
         return None
     if is_name(n, base):
         return 0
-    if n.k == 'UnaryOperator' and n.o == '&':
-        x = strip_casts(n.c[0])
-        if x.k == 'ArraySubscriptExpr' and is_name(x.c[0], base):
-            return cval(x.c[1])
+    ea = elem_addr(n)
+    if ea is not None and is_name(ea[0], base):
+        return cval(ea[1])
     b = as_binop(n)
     if b and b[0] == '+' and is_name(b[1], base):
         return cval(b[2])
@@ -236,7 +235,8 @@ def run(chk, facts, tier):
                             return True
                         if x.k in REF_KINDS and x.d.get('local'):
                             init = local_init(fn, x.n)
-                            return init is not None and (is_name(init, 'output') or init.text() in ('&output[0]',))
+                            ea = elem_addr(init) if init is not None else None
+                            return init is not None and (is_name(init, 'output') or (ea is not None and is_name(ea[0], 'output') and cval(ea[1]) == 0))
                         return False
                     if (t.k == 'UnaryOperator' and t.o == '*' and out_alias(t.c[0])) or (t.k == 'ArraySubscriptExpr' and is_name(t.c[0], 'output') and cval(t.c[1]) == 0):
                         if resp and val is not None and mentions(val, resp):
